@@ -528,7 +528,17 @@ inline int harness_main(int argc, char **argv, const Harness &h) {
       return msg.empty() ? 0 : 1;
     }
   }
+  // Shrinking is budgeted: rapidcheck has no limit of its own and specs that are generated pick by pick (long names,
+  // big value pools) can take hours to shrink. After the first failure the property keeps running for
+  // VERIF_SHRINK_SECONDS (default 90); then every further shrink candidate passes at once, so rapidcheck stops at the
+  // smallest failing spec found so far (which is what the replay file holds).
+  time_t first_failure_at = 0;
+  const long shrink_budget = atol(env("VERIF_SHRINK_SECONDS", "90"));
   bool ok = rc::check("property", [&]() {
+    if (first_failure_at && time(nullptr) - first_failure_at > shrink_budget) {
+      stats().classes["shrink_candidates_skipped_after_budget"]++;
+      return;
+    }
     std::string msg = h.run(mode);
     clear_pending();
     stats().evaluations++;
@@ -536,6 +546,7 @@ inline int harness_main(int argc, char **argv, const Harness &h) {
       auto &c = current_case();
       c.message = msg;
       last_failed() = c;
+      if (!first_failure_at) first_failure_at = time(nullptr);
       RC_FAIL(msg);
     }
   });
